@@ -224,9 +224,14 @@ def api_code_positions(ctx, rng):
         ctx.case("session_expired", key=udpid, sample={**inp, "first": str(out.get("first"))[:20], "requests": len(srv.requests)})
 
 
-def discover_auto(ctx, rng, endian):
-    """a V3 device registered under udpid(LE id) or udpid(BE id) is authenticated by auto-connect"""
-    device_id = rng.randrange(2 ** 40, 2 ** 48)
+BOUNDARY_IDS = [1, 255, 256, 2 ** 16 - 1, 2 ** 24, 2 ** 32 + 5, 2 ** 40 - 1, 2 ** 40, 0x112233440000, 0x110000000000,
+                0x000000000011, 2 ** 48 - 1]
+
+
+def discover_auto(ctx, rng, endian, device_id=None):
+    """a V3 device registered under udpid(LE id) or udpid(BE id) is authenticated by auto-connect; the id is always
+    taken as SIX bytes (ids with zero high or low bytes included)"""
+    device_id = rng.randrange(2 ** 40, 2 ** 48) if device_id is None else device_id
     token, key = bytes(rng.randrange(256) for _ in range(64)), bytes(rng.randrange(256) for _ in range(32))
     wrong_t, wrong_k = bytes(rng.randrange(256) for _ in range(64)), bytes(rng.randrange(256) for _ in range(32))
     reg_udpid = Security.udpid(device_id.to_bytes(6, endian)).hex()
@@ -398,6 +403,10 @@ def run(ctx):
     for _ in range(6 if not thorough else 100):
         for endian in ("little", "big"):
             discover_auto(ctx, rng, endian)
+    for i, did in enumerate(BOUNDARY_IDS):
+        discover_auto(ctx, rng, ("little", "big")[i % 2], device_id=did)
+        if thorough:
+            discover_auto(ctx, rng, ("big", "little")[i % 2], device_id=did)
     for n_fail in (3, 3, 4, 5):
         discover_login_recovers(ctx, rng, n_fail)
 
